@@ -672,6 +672,21 @@ class State:
             return "proved", dt, None, "z3-mbqi"
         if r2 == z3.sat:
             return "refuted", dt, s2.model(), "z3-mbqi model"
+        # No proof and no genuine model: before the obligation is reported on the strength of a *candidate* model,
+        # E-matching is retried on permuted input (whether a needed instance is found depends on the order in which
+        # terms reach the matcher); any `unsat` is a proof.
+        for attempt in (1, 2, 3):
+            s4 = z3.SimpleSolver()
+            s4.set("smt.mbqi", False)
+            s4.set("smt.auto_config", False)
+            s4.set("smt.random_seed", attempt)
+            s4.set("timeout", Z3_TIMEOUT_MS)
+            s4.set("rlimit", Z3_RLIMIT)
+            perm = assertions[::-1] if attempt == 1 else (assertions[len(assertions) // 2:] + assertions[: len(assertions) // 2] if attempt == 2 else sorted(assertions, key=lambda a_: a_.get_id() % 7))
+            s4.add(*perm)
+            if s4.check() == z3.unsat:
+                return "proved", time.time() - t0, None, f"z3-ematch-retry{attempt}"
+        dt = time.time() - t0
         if "timeout" in reason1 or "canceled" in reason1 or "resource" in reason1 or "max" in reason1:
             # stage 3: E-matching did not saturate within the budget (instantiation blow-up over the many heap
             # snapshots).  Ask again with a bounded number of instantiations: `unsat` is still a proof; otherwise the
